@@ -13,7 +13,8 @@ Tokens: bytes `x<hex>`; digest `x<hex of the hash string>/<size>`; raw digest `-
 * `newroot`                             fresh empty root, same CAS
 * `<op> <nF> <dig>*nF <args>` with `merge <dig>`, `lookup c..`, `readdir c..`,
   `openw|opentrunc|setsize|alloc|write c..`, `read <off> <len> c..`,
-  `remove|create|mkdir c..`, `fetch <dig>` (one `FetchContents` call, no tree)
+  `remove|create|mkdir c..`, `fetch <dig>` (one `FetchContents` call, no tree; how many leaves existed when a
+  defect was found is not compared, only that all of them were unlinked)
 * `cinit <maxCount> <maxSize>`, `cget <0 dir|1 root|2 child> <t> <c> <base|-> <size>`
 -/
 namespace BbRe.Drivers.InputRoot
@@ -201,8 +202,8 @@ def parseOp (name : String) (args : List String) : Option Op :=
 
 def showFetch (r : FetchOut) : String :=
   match r.result with
-  | .ok ch => s!"ok {r.created} {r.unlinked} " ++ showListing (ch.map fun e => (e.1, kindOf e.2))
-  | .error e => s!"err:{showErr e} {r.created} {r.unlinked}"
+  | .ok ch => s!"ok unlinked={r.unlinked} " ++ showListing (ch.map fun e => (e.1, kindOf e.2))
+  | .error e => s!"err:{showErr e} " ++ (if r.created = r.unlinked then "balanced" else s!"leaked created={r.created} unlinked={r.unlinked}")
 
 def step (s : DS) (ws : List String) : DS × String :=
   match ws with
